@@ -70,6 +70,11 @@ def h_sweep():
         return names, set(), set()
     spec.loops[("SymbolGraph.remove_dead_instances", 0)] = LoopSpec(inv=sweep_inv, modifies=sweep_modifies,
                                                                    name="WF of the graph minus the dead wrappers visited so far")
+    # the same invariants keyed by WHAT is iterated (a loop that was moved into a helper keeps its invariant)
+    by_stream = remove_node_loop_specs(box)
+    spec.stream_loops["in_edges"] = by_stream[("SymbolGraph.remove_node", 0)]
+    spec.stream_loops["out_edges"] = by_stream[("SymbolGraph.remove_node", 1)]
+    spec.stream_loops["nodes"] = spec.loops[("SymbolGraph.remove_dead_instances", 0)]
 
     def run(vm):
         ctx = vm.ctx
